@@ -128,13 +128,13 @@ def evaluate_benign(m):
     finally:
         open(path, "wb").write(src)
 
-def run_benign(limit, workers, seed):
+def run_benign(limit, workers, seed, files=None, tag=""):
     global CHECKER
-    out_path = os.path.join(VERIF, "selftest", "benign_results.jsonl")
+    out_path = os.path.join(VERIF, "selftest", "benign_results%s.jsonl" % tag)
     CHECKER = os.path.join(tempfile.mkdtemp(prefix="ankosweepbin."), "ankocheck")
     shutil.copy(os.path.join(VERIF, "bin/ankocheck"), CHECKER)
     dirs.append(os.path.dirname(CHECKER))
-    p = subprocess.run([os.path.join(VERIF, "bin/gomutate"), "-benign"] + FILES, cwd=REPO, capture_output=True, text=True)
+    p = subprocess.run([os.path.join(VERIF, "bin/gomutate"), "-benign"] + (files or FILES), cwd=REPO, capture_output=True, text=True)
     muts = [json.loads(l) for l in p.stdout.splitlines()]
     random.Random(seed).shuffle(muts)
     if limit:
@@ -149,10 +149,10 @@ def run_benign(limit, workers, seed):
                 print(done, "/", len(muts), flush=True)
     for d in dirs:
         shutil.rmtree(d, ignore_errors=True)
-    report_benign()
+    report_benign(tag)
 
-def report_benign():
-    rs = [json.loads(l) for l in open(os.path.join(VERIF, "selftest", "benign_results.jsonl"))]
+def report_benign(tag=""):
+    rs = [json.loads(l) for l in open(os.path.join(VERIF, "selftest", "benign_results%s.jsonl" % tag))]
     by = {}
     for r in rs:
         by[r["status"]] = by.get(r["status"], 0) + 1
@@ -222,17 +222,23 @@ if __name__ == "__main__":
             else: a = a[1:]
         run(limit, workers, skip)
     elif len(sys.argv) > 1 and sys.argv[1] == "benign":
-        limit, workers, seed = 0, 10, 1
+        limit, workers, seed, files, tag = 0, 10, 1, None, ""
         a = sys.argv[2:]
         while a:
             if a[0] == "--limit": limit = int(a[1]); a = a[2:]
             elif a[0] == "--workers": workers = int(a[1]); a = a[2:]
             elif a[0] == "--seed": seed = int(a[1]); a = a[2:]
+            elif a[0] == "--files": files = a[1].split(","); a = a[2:]
+            elif a[0] == "--tag": tag = "_" + a[1]; a = a[2:]
             else: a = a[1:]
-        run_benign(limit, workers, seed)
+        run_benign(limit, workers, seed, files, tag)
     elif len(sys.argv) > 1 and sys.argv[1] == "benign-report":
-        report_benign()
+        report_benign("_" + sys.argv[2] if len(sys.argv) > 2 else "")
     elif len(sys.argv) > 1 and sys.argv[1] == "recheck":
-        recheck(12)
+        if len(sys.argv) > 2:
+            OUT = os.path.join(VERIF, "selftest", sys.argv[2])   # e.g. sweep_results_1400.jsonl
+        recheck(8)
     else:
+        if len(sys.argv) > 2:
+            OUT = os.path.join(VERIF, "selftest", sys.argv[2])
         report()
